@@ -38,6 +38,9 @@ static void bs_harness_init(void)
         __CPROVER_assume(!(BS_GEQ[i][j] && BS_GEQ[j][k]) || BS_GEQ[i][k]);
     }
   }
+  /* sortedness flags: arbitrary */
+  _Bool bs_s[BS_NG];
+  for (size_t i = 0; i < BS_NG; i++) BS_SORTED[i] = (bs_s[i] ? 1 : 0);
   /* ghost indices and points: arbitrary */
   size_t bs_g1, bs_g2, bs_g3, bs_g4, bs_g5;
   gq = bs_g1; gj = bs_g2; gk = bs_g3; gi = bs_g4; gw = bs_g5;
